@@ -5,7 +5,7 @@ from props.tftp_base import env_of, worker_setup, run_impl, model_requests, shri
 
 ID = "C01"
 MODULE = "props.c01"
-THEOREM_MODULES = ["Vinegar.Theorems.C01"]
+THEOREM_MODULES = ["Vinegar.Theorems.C01", "Vinegar.Theorems.C02"]
 THEOREMS = [
     "Vinegar.C01.blocks_flatten",
     "Vinegar.C01.blocks_framing",
@@ -21,6 +21,7 @@ THEOREMS = [
     "Vinegar.C01.idealPackets_wraps",
     "Vinegar.C01.idealPackets_stops",
     "Vinegar.C01.overflow_error_not_reuse",
+    "Vinegar.C02.c02Check_runTransfer",
 ]
 TRUSTED_BASE = T.TRUSTED_BASE
 ASSUMPTIONS = T.ASSUMPTIONS
@@ -30,7 +31,9 @@ RULE = ("octet-mode sessions: contents of lengths {0, <bs, k*bs, k*bs±1, random
         "non-trivial = a transfer started with > 3 trace events; distinct by SHA-1 of the case")
 BUDGET_S = {"quick": 60, "thorough": 1200}
 
-judge = B.make_judge(required=["c01", "c01_prefix"], project=T.proj_data)
+# "within the retry budget" is measured by the C02 automaton: a trace it rejects (re-sends at the wrong time) says nothing
+# about premature give-ups, so the C02 checker is required as well
+judge = B.make_judge(required=["c01", "c01_prefix", "c02"], project=T.proj_data)
 
 
 def big_case(rng, wrap, extra_blocks):
